@@ -766,6 +766,21 @@ func c12Records(r *kernel.Run) {
 		if err != nil || !got.CreationTime.AsTime().Equal(a.CreationTime.AsTime()) || !proto.Equal(got.State, a.State) || got.Id != a.Id {
 			r.Violate("roundtrip", "roundtrip-differs/"+kname, "load with the same wrapper: err=%v (mask %d)", err, opt)
 		}
+		// the application loads the token, changes it and stores it again: what is loaded afterwards is what was stored last
+		if got != nil && err == nil {
+			moved := a.CreationTime.AsTime().Add(-time.Duration(tp.Range(1, 1000)) * time.Hour)
+			got.CreationTime = timestamppb.New(moved)
+			mb, _ := proto.Marshal(got.CreationTime)
+			reg.add("the token creation time", mb)
+			if serr := got.Store(w.Ctx, w.Storage, o1...); serr != nil {
+				r.Violate("roundtrip", "store-failed/"+kname, "re-storing a loaded token: %v", serr)
+			}
+			again, lerr := types.LoadServerLedActivationToken(w.Ctx, w.Storage, a.Id, o1...)
+			if lerr != nil || !again.CreationTime.AsTime().Equal(moved) {
+				r.Violate("roundtrip", "roundtrip-differs/"+kname, "a token loaded, given another creation time and stored again loads with err=%v and the %s creation time", lerr, map[bool]string{true: "old", false: "a wrong"}[lerr == nil && again.CreationTime.AsTime().Equal(a.CreationTime.AsTime())])
+			}
+			r.Count("ops.token_restored_after_modification", 1)
+		}
 		_, err = types.LoadServerLedActivationToken(w.Ctx, w.Storage, a.Id)
 		fail("without a wrapper", err)
 		_, err = types.LoadServerLedActivationToken(w.Ctx, w.Storage, a.Id, o2...)
